@@ -487,7 +487,7 @@ fn classify(case: &Case, run: &RunOut, ctx: &mut Ctx) {
     }
 }
 
-fn case_sched(bytes: &[u8], sched_bytes: &[u8], ctx: &mut Ctx) -> Result<(), Fail> {
+pub fn case_sched(bytes: &[u8], sched_bytes: &[u8], ctx: &mut Ctx) -> Result<(), Fail> {
     let mut src = Source::new(bytes);
     let case = decode(&mut src);
     ctx.case(&(&case, sched_bytes));
@@ -638,7 +638,7 @@ fn stress(pr: &PropRun) -> LaneReport {
     rep
 }
 
-fn case_exhaustive_replay(bytes: &[u8], _s: &[u8], ctx: &mut Ctx) -> Result<(), Fail> {
+pub fn case_exhaustive_replay(bytes: &[u8], _s: &[u8], ctx: &mut Ctx) -> Result<(), Fail> {
     let sc = scenarios();
     let si = (*bytes.first().unwrap_or(&0) as usize).min(sc.len() - 1);
     let (name, case) = &sc[si];
